@@ -66,3 +66,17 @@ CLAIMED["C06"] = (
     "user, unregistered, other protocol's valid handshake, random, truncated) for every cipher and presented to the real TCP and UDP server codecs; for accepted sessions the real "
     "server's answer is opened under every candidate key to see whose it is.",
     TB + "; reference codec builds the attacker's messages", "5.6")
+CLAIMED["C12"] = (
+    "model_checking", "TLA+ Wire ledger model (TLC exhaustive + deviations), trace validation of the units the real encoders put on the wire (nonces recovered by the reference opener)",
+    "Reduced scope: distinctness and counter rules, not unpredictability. TLC checks the sender design (fresh randomness selects the key; one counter per cipher stepping once per sealed "
+    "unit; ledger of (key, nonce) pairs) and that four named deviations reuse a pair; the real encoders of every protocol, cipher and direction (streams and datagrams, writes from 1 byte to "
+    "70 000 bytes, many sessions) are driven, their output is opened by the reference opener, and TLC validates every session's unit trace: counters 0,1,2,.., no pair twice, grammar, "
+    "limits, and all salts / session ids / VMess keys, IVs, auth ids and connection nonces pairwise distinct.",
+    TB + "; reference opener recovers the nonce of every unit", "5.12")
+CLAIMED["C03"] = (
+    "model_checking", "TLA+ WireScripts catalogue + Wire/TraceWire grammar; every script run in both directions between the real codecs and an independent reference codec; unit traces validated by TLC",
+    "Reduced scope: TLC cannot compute KDFs or ciphers; that fidelity rests on the independent reference codec. TLC enumerates 1 172 message scripts (family x direction x encoder x write sizes "
+    "around each sender limit x all eight VMess option masks); each is realised by the real encoder and read by the reference opener, or realised by the reference encoder (including legal "
+    "choices the real one never makes) and read by the real decoder, comparing target address, payload and per-unit sender limits; the real encoders' output is also validated as unit traces "
+    "against the Wire grammar (order of units, key class, counters, limits).",
+    TB + "; reference codec = my offline reading of SIP004/007/022/023, v2ray VMess AEAD, Trojan", "5.3")
